@@ -491,6 +491,31 @@ void c14_extremes()
         "7k/PPPPPPPP/8/8/8/8/8/K7 w - - 0 1", "QQQQQQQQ/Q7/8/8/8/8/7q/K6k w - - 0 1", "QQQQQQQQ/QRRBBNN1/1PPPPPP1/8/8/8/r7/K6k w - - 0 1",
     };
     PositionScorer L;
+    // random maximal-material lone-king positions: nine queens plus rooks / minor pieces / the full original army
+    static const char* ARMIES[] = {"QQQQQQQQQR", "QQQQQQQQRR", "QQQQQQQQQ", "QQQQQQQRRBBNN", "QQQQQQQQQRBN", "QQQQQQQRRBBNNPP", "RRRRRRRRRRQ", "QQQQQQQQQRR"};
+    for (int i = 0; i < 60; ++i)
+    {
+        Board b;
+        int strong = int(RNG->below(2));
+        b.stm = 1 - strong;  // the lone king moves: the strong king cannot be in check
+        const char* army = ARMIES[RNG->below(8)];
+        for (const char* p = army; *p; ++p)
+            for (int t = 0; t < 30 && !gen::put(b, RNG->below(64), orc::make_pc(strong, kind_of_char(*p))); ++t) {}
+        gen::put_kings(*RNG, b);
+        if (b.king_sq(0) < 0 || b.king_sq(1) < 0 || !b.retro_legal()) continue;
+        bool ok = true;
+        for (int c = 0; c < 2; ++c)
+            for (int k = orc::KNIGHT; k <= orc::QUEEN; ++k)
+                if (b.count(orc::make_pc(c, k)) > 10) ok = false;
+        if (!ok) continue;
+        std::string fen = b.fen();
+        vh::set_case(fen.c_str(), "c14-extreme-random");
+        Position P(fen);
+        Value v = L.score(P);
+        rec.evaluations++;
+        rec.count("extreme-material-positions");
+        check_bound(fen, v, "extreme-material:lone-king");
+    }
     for (const char* f : EXT)
     {
         Board b;
